@@ -6,6 +6,7 @@ import os
 import vlib
 import sim_common
 import alloc_common
+import mpi_common
 
 
 def run(tier, seed):
@@ -14,6 +15,9 @@ def run(tier, seed):
     n = 70 if tier == "quick" else 2000
     cases = sim_common.make_cases("C11", tier, seed, n, variants=(0, 0, 1, 2, 0, 3), fp_levels=(1, 2, 3), sizes=(0, 1, 0), flavours=flav)
     sim_common.run_sim_cases(chk, cases, timeout=300, retries=0)
+    chk.soft_fraction = 0.3
+    mcases = mpi_common.make_cases("C11", tier, seed, 12 if tier == "quick" else 300, variants=(0, 1, 2), fault_rates=(0, 40), flavours=flav)
+    mpi_common.run_mpi_cases(chk, mcases, timeout=30 if tier == "quick" else 90, retries=0)
     # the unit engines, reduced counts; any sanitizer report in repo code is a C11 violation
     V = vlib.VERIF
     stub = os.path.join(V, "hooks", "vhook_stub.c")
@@ -47,4 +51,4 @@ def run(tier, seed):
                 "numerical library with crafted states, topology box); non-trivial parallel case = rollbacks + anti-messages; distinct = schedule signature")
     chk.assumptions = ["red-zone tools miss intra-object and far out-of-bounds accesses; a clean run is not memory safety",
                        "memcmp(a->pl, ..., pl_size > 32) deliberately runs from pl into extra_pl inside one allocation"]
-    return chk.finish(min_evals=20, require={"forward_executions": 100000, "rollbacks": 100, "message_frees": 10000, "shutdown_with_pending": 10, "checkpoints": 1000})
+    return chk.finish(min_evals=20, require={"forward_executions": 100000, "rollbacks": 100, "message_frees": 10000, "shutdown_with_pending": 10, "checkpoints": 1000, "remote_sends": 1000})
